@@ -56,9 +56,10 @@ def pCfg : P Cfg := do
   let bucket ← nat
   let minIonIndex ← nat
   let tmt ← nat
+  let overrideCharge ← bool
   pure { cleave, restrict := restrict.map (·.toUInt8), cterm, semi, mc, minLen, maxLen, minMass, maxMass, statics, vars,
          maxVar, decoyTag, genDecoys, ptol, ftol, isoLo, isoHi, zLo, zHi, reportPsms, chimera, minPeaks, maxPeaks,
-         minMatched, maxFragCharge, deisotope, annotate, pin, predictRt, batch, bucket, minIonIndex, tmt }
+         minMatched, maxFragCharge, deisotope, annotate, pin, predictRt, batch, bucket, minIonIndex, tmt, overrideCharge }
 
 def pSpectrum : P Spectrum := do
   let title ← bytes
